@@ -209,6 +209,13 @@ Definition init_store (w : world) (ri : run_info) : result (store_t * world) :=
   Ok (fold_left (fun st o => match dict_get st o with Some _ => st | None => st ++ [(o, SPath o)] end)
                 (ri_all_output_names ri) (fst sw), snd sw).
 
+(* the outputs of a recorded MapSpec string that get a StorageBase (mapspec.inputs is not empty) *)
+Definition mapped_outs (x : str) : list str :=
+  match parse x with
+  | Ok ms => match ins ms with [] => [] | _ :: _ => map aname (outs ms) end
+  | Err _ => []
+  end.
+
 (* ---------- to_array ---------- *)
 Definition masked_str : str := s "--".
 
